@@ -637,6 +637,31 @@ def execute(sc):
                 if got_names != ["lvl%d" % i_ for i_ in range(len(cfgs))] or got_args != [a[0] for a in model.all_args()] or got_opts != want_opts:
                     res.violate("command_tree", "stacking", "sub-command of a command tree without application: names %r arguments %r options %r; levels imply %r / %r / %r" % (
                         got_names, got_args, got_opts, ["lvl%d" % i_ for i_ in range(len(cfgs))], [a[0] for a in model.all_args()], want_opts))
+                # an anonymous sub-command that declares nothing still stacks a level of its own (an empty
+                # one) on its parent's format
+                cfgs3 = []
+                for i_, l in enumerate(levels):
+                    c_ = CommandConfig("lvl%d" % i_)
+                    for o in l.opts:
+                        c_.add_option(o[0], o[1], o[2])
+                    for a in l.args:
+                        c_.add_argument(a[0], a[1])
+                    if cfgs3:
+                        cfgs3[-1].add_sub_command_config(c_)
+                    cfgs3.append(c_)
+                anon = CommandConfig("anon")
+                anon.anonymous()
+                cfgs3[-1].add_sub_command_config(anon)
+                cmd3 = Command(cfgs3[0])
+                for i_ in range(1, len(cfgs3)):
+                    cmd3 = cmd3.get_sub_command("lvl%d" % i_)
+                parent_fmt = cmd3.args_format
+                af = cmd3.get_sub_command("anon").args_format
+                own = ([n.string for n in af.get_command_names(False)], sorted(af.get_options(False)), list(af.get_arguments(False)))
+                inherited = ([n.string for n in af.get_command_names()], sorted(o.long_name for o in af.get_options().values()), [a.name for a in af.get_arguments().values()])
+                if own != ([], [], []) or af.base_format is not parent_fmt or inherited != (["lvl%d" % i_ for i_ in range(len(cfgs3))], want_opts, [a[0] for a in model.all_args()]):
+                    res.violate("command_tree", "anonymous_empty_level", "anonymous sub-command without declarations: own level %r, base is parent's format: %r, with bases %r" % (
+                        own, af.base_format is parent_fmt, inherited))
                 # the format of a command is finished when the command is: a declaration made on the
                 # parent's config afterwards (legal there) does not reach it, whenever it is first looked at
                 cfgs2 = []
